@@ -6,21 +6,30 @@ From WP Require Import Model.Cbor Model.Http Model.Sxg.
 From WP Require Import Spec.Sxg.
 Open Scope N_scope.
 
-(* header names are RFC 7230 tokens (so ASCII, and never ":method", ":url",
-   ":status"): what a Go http.Header holding wire names satisfies.  That the
-   names of one map are pairwise distinct once lower-cased is NOT assumed: Write
-   refuses such a map (duplicate CBOR key), see write_read. *)
-Definition name_ok (n : bytes) : bool := forallb is_tchar n.
+(* The domain of the write / read round trip: what is left to assume once
+   Write has succeeded.  (Write itself now refuses a fallback URL that is not
+   https and, for b2, a request header named ":url"; a header named like a pseudo
+   key of its own map - ":method", ":url" (b1), ":status" - or two names equal up
+   to letter case make the CBOR map encoder fail.)
+
+   - header names are ASCII: a name that is not valid UTF-8 is refused by the
+     reader (strings.ToLower changes it), a valid non-ASCII one depends on
+     strings.ToLower beyond the model.  Nothing else is asked of names: they need
+     not be tokens, nor non-empty.
+   - the status is a Go int (model-domain fact: the model's Z is wider).
+   - the URL model decides the fallback URL (snd (validate_fallback u) = false)
+     and the exchange is not already tainted: model-domain facts, "undecided"
+     has no counterpart in Go.
+   - b3 stores neither method nor request headers: the reader returns GET and
+     none (see b3_request_part_dropped for what comes back otherwise). *)
+Definition name_ok (n : bytes) : bool := is_ascii n.
 Definition headers_ok (h : headers) : bool := forallb (fun nv => name_ok (fst nv)) h.
 
 Definition int64_b (z : Z) : bool :=
   ((-9223372036854775808 <=? z) && (z <? 9223372036854775808))%Z.
 
-Definition url_accepted (u : bytes) : bool :=
-  match validate_fallback u with (true, false) => true | _ => false end.
-
 Definition readable (e : exchange) : bool :=
-  url_accepted (e_uri e)              (* url.Parse accepts it, scheme https; decided by the URL model *)
+  negb (write_taint e)                (* the URL model decides the fallback URL *)
   && headers_ok (e_resph e)
   && int64_b (e_status e)             (* ResponseStatus is a Go int *)
   && negb (e_taint e)
@@ -29,6 +38,12 @@ Definition readable (e : exchange) : bool :=
                && match e_reqh e with [] => true | _ => false end   (* ... nor request headers *)
      | _ => headers_ok (e_reqh e)
      end.
+
+(* a b3 exchange as the file format sees it *)
+Definition b3_norm (e : exchange) : exchange :=
+  {| e_ver := e_ver e; e_uri := e_uri e; e_method := s2b "GET"; e_reqh := [];
+     e_status := e_status e; e_resph := e_resph e; e_sig := e_sig e; e_payload := e_payload e;
+     e_taint := e_taint e |}.
 
 (* what http.Header.Add builds when the reader walks a map sorted by encoded key:
    canonical MIME key, one comma-joined value, in the order of the sorted map *)
